@@ -350,10 +350,16 @@ pub fn sq_name(s: u32) -> String {
 // the text the engine itself prints for the move that produced `b` (through its own bestmove printer)
 pub fn printed_move(b: &BoardState) -> String {
     crate::verif_hooks::install_log();
-    crate::uci::verif_send_best_move_to_gui(b);
+    // a panic of the code under test is data (the move text is then "PANIC", which no rule-book text equals), and what follows
+    // the move on the line (`ponder ...`) is not part of the move
+    let r = std::panic::catch_unwind(std::panic::AssertUnwindSafe(|| crate::uci::verif_send_best_move_to_gui(b)));
     let log = crate::verif_hooks::take_log();
+    if r.is_err() {
+        return "PANIC".to_string();
+    }
     let line = log.iter().find(|e| e.kind == "out").map(|e| e.text.clone()).unwrap_or_default();
-    line.strip_prefix("bestmove ").unwrap_or(&line).to_string()
+    let rest = line.strip_prefix("bestmove ").unwrap_or(&line);
+    rest.split(' ').next().unwrap_or("").to_string()
 }
 
 pub fn move_text(b: &BoardState) -> String {
